@@ -12,6 +12,9 @@ import (
 	"strings"
 	"sync"
 
+	"cosmossdk.io/math"
+	sdk "github.com/cosmos/cosmos-sdk/types"
+
 	ophosttypes "github.com/initia-labs/OPinit/x/ophost/types"
 )
 
@@ -679,6 +682,41 @@ func c17ResultAliasing(rep *Report, seed uint64, tier string) {
 	rep.Notes = append(rep.Notes, fmt.Sprintf("result purity: %d ids / inputs per function with the returned bytes overwritten before the second call; %d deposits through the msg server after a caller wrote into BridgeAddress's result", len(ids), rounds))
 }
 
+// denomStructured: L1 denoms that look like something the chain might want to treat specially -
+// the L2 prefix itself (stacked rollups: the L1 can be an OPinit L2), its case variants, other
+// namespaces, a real L2 denom of another bridge, denoms equal up to case - several bridge ids
+// each; the result must be the documented hash form and must depend on the bridge id.
+func (g *c17Gen) denomStructured() {
+	other := indepDenom(7, "uinit") // "l2/" + 64 hex digits
+	ds := []string{"l2/", "l2/uinit", "l2/x", "L2/uinit", "l2", "l2uinit", "l2//", "ibc/27394FB092D2ECCD56123C74F36E4C1F926001CEADA9CA97EA622B25F41E5EB2", "ibc/",
+		"factory/init1qqqsyqcyq5rqwzqfpg9scrgwpugpzysn2wvg8/sub", "factory/", other, strings.ToUpper(other), "l2/" + other, " l2/uinit",
+		"uinit", "UINIT", "Uinit", "uinit ", "evm/0xdAC17F958D2ee523a2206206994597C13D831ec7", "move/944f8dd8dc49f96c25fea9849f16436dcfa6d564eec802f3ef7f8b3ea85368ff"}
+	ids := []uint64{1, 2, 0, 1 << 63, ^uint64(0)}
+	for _, d := range ds {
+		seen := map[string]uint64{}
+		for _, b := range ids {
+			out := ophosttypes.L2Denom(b, d)
+			g.add("denom", fmt.Sprintf("FDenom %s %s", coqU(b), coqStr(d)), fmt.Sprintf("L2Denom(%d, %q)", b, d), []byte(out), []byte(indepDenom(b, d)))
+			if b0, dup := seen[out]; dup {
+				g.rep.Violate(Violation{Case: len(g.cases), What: fmt.Sprintf("the L2 denom of %q does not depend on the bridge id (%d and %d)", d, b0, b), Sig: "C17:denom-not-injective",
+					Ops: []string{fmt.Sprintf("L2Denom(%d, %q)", b0, d), fmt.Sprintf("L2Denom(%d, %q)", b, d)}, Detail: map[string]string{"both": out}})
+			}
+			seen[out] = b
+		}
+	}
+}
+
+// addrRuns: in one process and in this order, ids i, i+64, i+128, i+2^32, i+2^63 for several i
+// (ids that collide in a table indexed by the low bits of the id).
+func (g *c17Gen) addrRuns() {
+	for _, i := range []uint64{0, 1, 5, 63, uint64(9 + g.r.Intn(40)), uint64(g.r.Intn(64))} {
+		for _, id := range []uint64{i, i + 64, i + 128, i + 1<<32, i + 1<<63, i + 4096, i} {
+			out := ophosttypes.BridgeAddress(id)
+			g.add("addr", fmt.Sprintf("FAddr %s", coqU(id)), fmt.Sprintf("BridgeAddress(%d)", id), []byte(out), indepAddr(id))
+		}
+	}
+}
+
 func (g *c17Gen) addr() {
 	b := g.u64()
 	out := ophosttypes.BridgeAddress(b)
@@ -783,10 +821,28 @@ func c17FinalizeLayouts(rep *Report, seed uint64, nTrees int) {
 	for _, d := range sc.Denoms {
 		must(sc.op(L1Op{Kind: "deposit", Sender: e.User(3).Str, Bridge: 1, To: "l2addr", Denom: d, Amt: big.NewInt(50000)}))
 	}
+	// the escrow also holds 4 * 2^64 of the first denom (minted to it directly): withdrawals whose
+	// amounts use the whole 64-bit field of the leaf format must be payable
+	e.Fund(ophosttypes.BridgeAddress(1), sdk.NewCoins(sdk.NewCoin(sc.Denoms[0], math.NewIntFromBigInt(new(big.Int).Lsh(big.NewInt(1), 66)))))
+	setupNote := fmt.Sprintf("// before the history: 2^66 %s minted to the escrow of bridge 1", sc.Denoms[0])
 	l2 := uint64(0)
-	for t := 0; t < nTrees; t++ {
+	for t := 0; t < nTrees+1; t++ {
 		n := []int{1, 2, 3, 5, 8, 13, 21}[(t+int(seed))%7]
-		pt := sc.MakeTree(1, n)
+		var pt *ProposedTree
+		if t == 0 { // amounts 2^63-1, 2^63, 2^63+1, 2^64-1
+			var ws []Withdrawal
+			for _, a := range []*big.Int{new(big.Int).SetUint64(1<<63 - 1), new(big.Int).SetUint64(1 << 63), new(big.Int).SetUint64(1<<63 + 1), new(big.Int).SetUint64(^uint64(0))} {
+				if sc.NextWSeq[1] == 0 {
+					sc.NextWSeq[1] = 1
+				}
+				ws = append(ws, Withdrawal{Bridge: 1, Seq: sc.NextWSeq[1], From: "l2user1", To: e.User(uint64(1 + len(ws))).Str, Denom: sc.Denoms[0], Amt: a})
+				sc.NextWSeq[1]++
+			}
+			pt = &ProposedTree{Bridge: 1, Tree: BuildTree(ws), Version: 1, BHash: sc.R.Bytes(32)}
+			pt.Root = outputRootOf(pt.Version, pt.Tree.Root(), pt.BHash)
+		} else {
+			pt = sc.MakeTree(1, n)
+		}
 		pt.Idx = uint64(t + 1)
 		l2 += 10
 		must(sc.op(L1Op{Kind: "propose", Sender: e.User(1).Str, Bridge: 1, Idx: pt.Idx, L2: l2, Root: pt.Root}))
@@ -794,9 +850,12 @@ func c17FinalizeLayouts(rep *Report, seed uint64, nTrees int) {
 	}
 	sc.Advance(8 * sec)
 	base := e.Ctx
+	setupOps := append(l1OpsHuman(c.Ops), setupNote)
+	nth := 0
 	for _, pt := range sc.Trees {
 		for i := range pt.Tree.Ws {
-			for variant := 0; variant < 2; variant++ { // 0: the valid claim, 1: one proof element corrupted (or amount changed for single-leaf trees)
+			for variant := 0; variant < 2; variant++ {
+				nth++ // 0: the valid claim, 1: one proof element corrupted (or amount changed for single-leaf trees)
 				op := sc.Claim(pt, i, e.User(4).Str)
 				if variant == 1 {
 					if len(op.Proofs) > 0 {
@@ -826,8 +885,12 @@ func c17FinalizeLayouts(rep *Report, seed uint64, nTrees int) {
 							Ops: []string{human}, Detail: map[string]interface{}{"buffers_before": hexList(before), "buffers_after": hexList(backing)}})
 					}
 					if r.OK != (variant == 0) {
-						rep.Violate(Violation{Case: 0, Step: k, What: fmt.Sprintf("claim variant %d under layout %s: verdict OK=%v (%s)", variant, layoutNames[k], r.OK, r.Err), Sig: "C17:finalize-verdict",
-							Ops: []string{human}})
+						what := "a withdrawal committed with the documented leaf format (amount " + op.Amt.String() + ") and claimed with an honest proof is rejected"
+						if variant == 1 {
+							what = "a claim with a corrupted proof is accepted"
+						}
+						rep.Violate(Violation{Case: nth, Step: k, What: fmt.Sprintf("%s (layout %s): OK=%v %s", what, layoutNames[k], r.OK, r.Err), Sig: "C17:finalize-verdict",
+							Ops: append(append([]string{}, setupOps...), human)})
 					}
 					if k == 0 {
 						refObs = obs
@@ -866,10 +929,12 @@ func genC17(seed uint64, tier string, outdir string) *Report {
 	for i := 0; i < 110*mul; i++ {
 		g.outRoot()
 	}
+	g.denomStructured()
 	g.denomDense()
 	for i := 0; i < 110*mul; i++ {
 		g.denom()
 	}
+	g.addrRuns()
 	for i := 0; i < 70*mul; i++ {
 		g.addr()
 	}
